@@ -194,7 +194,7 @@ func RunFamily(c *core.Ctx, family string) Totals {
 				chunks = append(chunks, frontier[i:j])
 			}
 			results := make([]*expandResult, len(params))
-			core.RunJobs("expand", params, 30*time.Minute, func(idx int, res json.RawMessage, crash string) {
+			core.RunJobs("expand", params, 10*time.Minute, func(idx int, res json.RawMessage, crash string) {
 				if crash != "" {
 					c.Violate(fmt.Sprintf("%s/%s/worker-crash", c.ID, sp.Name), "expansion worker failed: "+crash+" on paths starting with "+PathString(chunks[idx][0], sp.Describe), chunks[idx])
 					return
